@@ -778,6 +778,12 @@ class SVG:
             root_group.extend(list(self.svg_root))
             self.svg_root.append(root_group)
 
+        # a gradient without an id cannot be referenced by anything (the copies made for
+        # <use> instances lose theirs): drop it rather than trip over it
+        for gradient_el in self._select_gradients():
+            if "id" not in gradient_el.attrib:
+                _safe_remove(gradient_el)
+
         # Reversed: we want leaves first
         to_process = reversed(tuple(c for c in self.breadth_first()))
 
@@ -1372,6 +1378,8 @@ class SVG:
             self._apply_gradient_template(template)
 
         for attr_name in _GRADIENT_FIELDS[strip_ns(gradient.tag)]:
+            if attr_name == "id":
+                continue  # a name is not inherited (an id-less gradient must not take the template's)
             if attr_name in template.attrib and attr_name not in gradient.attrib:
                 gradient.attrib[attr_name] = template.attrib[attr_name]
 
